@@ -26,9 +26,10 @@ ObservedOnlyOps == {"options::flag::parse", "options::option::parse", "options::
 PosIn(seq, x) == CHOOSE k \in DOMAIN seq : seq[k] = x
 LabelWhy(St, ev) ==
   IF ~RL!HasContract(St.op) THEN {"HARNESS-labels-for-unknown-operation"}
-  ELSE IF \/ \E i \in DOMAIN ev.arg : \E k \in DOMAIN ev.arg[i] : ev.arg[i][k].obj \notin Range(St.args[i].objs)
+  ELSE IF \/ Len(ev.arg) # Len(St.args)
+          \/ \E i \in DOMAIN ev.arg : \E k \in DOMAIN ev.arg[i] : ev.arg[i][k].obj \notin Range(St.args[i].objs)
           \/ \E k \in DOMAIN ev.res : ~Known(St, ev.res[k].obj)
-  THEN {"HARNESS-unknown-object"}
+  THEN {"untracked-object"}
   ELSE LET A == [i \in DOMAIN ev.arg |->
                    RL!AsRec([k \in DOMAIN ev.arg[i] |->
                                [l |-> ev.arg[i][k].l,
@@ -49,9 +50,9 @@ TNext ==
   /\ LET ev == T[l]
          opname == IF ev.e \in {"reset", "begin"} THEN ev.op ELSE S.op
          w0 == IF ev.e = "labels" THEN LabelWhy(S, ev) ELSE Why(S, ev)
-         harness == \E r \in w0 : r \in {"HARNESS-unknown-object", "HARNESS-id-reuse", "HARNESS-PRECONDITION",
+         harness == \E r \in w0 : r \in {"HARNESS-id-reuse",
                                          "HARNESS-unknown-event", "HARNESS-begin-twice", "HARNESS-end-without-begin",
-                                         "HARNESS-end-inside-continuation", "HARNESS-token-mismatch",
+                                         "HARNESS-end-inside-continuation",
                                          "HARNESS-argument-count", "HARNESS-cb-exit-without-enter",
                                          "HARNESS-labels-for-unknown-operation"}
          w == IF w0 # {} /\ ~harness /\ (ev.e = "labels" \/ opname \in ObservedOnlyOps)
